@@ -12,9 +12,9 @@ CFG_OUT = G.GenCfg(kinds={"set": 5, "slow": 3, "ova": 1, "ovb": 1, "wait": 3, "p
                    max_depth=2, max_top=7, max_children=3, thresholds=False, base_first="s", wait_max=1.0,
                    pause_durs=(0.1, 0.2, 0.3, 0.5, 0.5, 1.0, 2.0, None))
 
-USER_OPS = ["Pause", "Unpause", "Hold", "Unhold", "Stop", "Start", "Restart", "toggle-pause", "toggle-hold", "Open1", "Open2"]
+USER_OPS = ["Pause", "Unpause", "Hold", "Unhold", "Stop", "Start", "Restart", "toggle-pause", "toggle-hold", "Open1", "Open2", "Keep1", "Keep2"]
 USER = st.sampled_from(["toggle-pause"] * 8 + ["toggle-hold"] * 3 + ["Pause", "Unpause", "Hold", "Unhold"] * 2 +
-                       ["Stop", "Start", "Start", "Restart"] + ["Open1", "Open2"] * 2)
+                       ["Stop", "Start", "Start", "Restart"] + ["Open1", "Open2"] * 2 + ["Keep1", "Keep2"])
 INC = st.sampled_from([0.1])
 
 
